@@ -197,6 +197,8 @@ class Model:
             finals = it.run(self.oa.body, env)
         except Unknown as ex:
             raise AnalysisError('output_algorithm cannot be interpreted for (%s, %r): %s' % (alg_type, name, ex))
+        if len(finals) == 1 and finals[0].get('<crash>'):
+            raise AnalysisError('output_algorithm raises for (%s, %r): %s' % (alg_type, name, finals[0]['<crash>']))
         if len(finals) != 1 or finals[0].get('<forks>'):
             raise AnalysisError('output_algorithm does not evaluate on a single path for (%s, %r): forks %s' % (alg_type, name, [f.get('<forks>') for f in finals][:2]))
         f = finals[0]
@@ -339,6 +341,8 @@ def json_notes(repo, alg_type, name):
         finals = Interp(call_hook=hook, budget=20000).run(fn.body, env)
     except Unknown as ex:
         raise AnalysisError('fetch_notes cannot be interpreted for (%s, %r): %s' % (alg_type, name, ex))
+    if len(finals) == 1 and finals[0].get('<crash>'):
+        return {'<crash>': finals[0]['<crash>']}
     if len(finals) != 1 or finals[0].get('<forks>') or finals[0].get('<outcome>') != 'return' or not isinstance(finals[0].get('<return>'), dict):
         raise AnalysisError('fetch_notes does not evaluate to one dictionary for (%s, %r): forks %s' % (alg_type, name, [f.get('<forks>') for f in finals][:2]))
     return finals[0]['<return>']
@@ -355,6 +359,9 @@ def verify_json(repo, rep, rule_levels, rule_unknown, rule_agree):
             continue
         got = json_notes(repo, alg_type, name)
         rep.evals()
+        if '<crash>' in got:
+            rep.check(rule_levels, 'JSON: the notes of %s %r can be looked up' % (alg_type, name), False, fn, 'fetch_notes(%r, %r) raises for a table entry with %d row(s): %s' % (name, alg_type, len(DB[alg_type].get(name, [])), got['<crash>']), stmt='fetch_notes model: crash')
+            continue
         want_notes, unknown_key = expected_notes(alg_type, name)
         if unknown_key is not None:
             rep.check(rule_unknown, 'JSON: unknown name %r => fail [FAIL_UNKNOWN] and nothing else' % name, got == {'fail': [FAIL_UNKNOWN]}, fn, 'fetch_notes(%r, %r) for a name the table does not have returns %s' % (name, alg_type, got),
